@@ -617,7 +617,7 @@ func (cs *Contracts) parseFile(path string) error {
 			if err != nil {
 				return fail("%v", err)
 			}
-			cs.GlobalInvs = append(cs.GlobalInvs, &GlobalInv{Pkg: pkg, Clause: &Clause{Kind: "global", Text: rest, E: e}})
+			cs.GlobalInvs = append(cs.GlobalInvs, &GlobalInv{Pkg: pkg, Clause: &Clause{Kind: "global", Text: rest, E: e, Label: label}})
 			cs.Assumed = append(cs.Assumed, "global assumption ("+pkg+"): "+rest)
 		case "lemma":
 			// lemma name(x int, y int)
